@@ -523,6 +523,7 @@ PROPS = {
             ("H2V.Props.C10", "H2V.Props.C10.table_bounded_block_end"),
             ("H2V.Props.C10", "H2V.Props.C10.reduction_signalled_first"),
             ("H2V.Props.C10", "H2V.Props.C10.own_decoder_reads_back_the_submitted_fields"),
+            ("H2V.Props.C10", "H2V.Props.C10.own_decoder_lockstep_history"),
         ],
         "profiles": [
             {"name": "hpackenc", "quick": 700, "thorough": 8000, "shards": {"quick": 1, "thorough": 6}},
